@@ -4,7 +4,7 @@ From VT Require Import Model.MVT Proofs.MVTProofs Proofs.MVTWire Gen.Constants.
 Import ListNotations.
 Local Open Scope N_scope.
 
-Lemma C10_gen_relations : mvt_table_variant = 1 /\ zigzag_variant = 1.  Proof. split; reflexivity. Qed.
+Lemma C10_gen_relations : mvt_table_variant = 1 /\ zigzag_variant = 1 /\ geovalue_eq_variant = 1.  Proof. repeat split; reflexivity. Qed.
 
 (* add_from_layer (the core of merge_tiles): the target layer keeps its features, in order, and
    gains the source layer's features in source order; every feature keeps its id, geometry type,
